@@ -61,3 +61,7 @@ HARNESSES['retry_small_counts_all_scripts'] = {'module': 'verif_core.rs', 'targe
     'what': 'r in 0..=2 over all 625 four-attempt outcome scripts: attempts, first decisive outcome, last timeout error', 'bounded': True, 'bound': 'r <= 2'}
 SETS['C18'] = ['settings_new_rejects_exactly_zero_durations', 'settings_defaults_are_valid', 'retry_extreme_counts']
 SETS['C10'] = ['retry_small_counts_all_scripts', 'retry_extreme_counts'] + SETS['C10']
+
+# C14: harnesses generated on every run from the real sources (lib/gen_defs.py)
+DYNAMIC = {'C14': 'gen_defs'}
+BATCH = {"C14": 16}
